@@ -4,7 +4,10 @@
     2. resolve_* / unresolve_* are inverse on grid points (any step kind), the F12 witness for
        mixed steps;
     3. a grid cell's indices turn back into its coordinates;
-    4. from_array rebuilds the cells of an array data frame row by row. *)
+    4. from_array rebuilds the cells of an array data frame row by row;
+    5. triangle level: matrix_round_trip returns a permutation of the float-normalised cells
+       (matrix_round_trip_perm for any step kind under explicit grid conditions,
+       matrix_round_trip_nested with the conditions derived from index_from_triangle). *)
 From Coq Require Import ZArith List Bool Lia ZifyBool Permutation.
 From Bermuda Require Import Model.Base Lib.Calendar Model.Frame Model.MatrixIx.
 Import ListNotations.
@@ -627,3 +630,654 @@ Proof.
     + intros g' Hg'. rewrite (Ho g' (or_intror Hg')). reflexivity.
     + intros g' Hg'. rewrite (Ho g' (or_introl Hg')). reflexivity.
 Qed.
+
+(* ---------- index_of / zrange / dedup ---------- *)
+Section IndexOf.
+  Context {A : Type} (eqb : A -> A -> bool).
+  Hypothesis eqb_eq : forall a b, eqb a b = true <-> a = b.
+
+  Lemma index_of_nonneg : forall l a i, index_of eqb a l = Some i -> 0 <= i.
+  Proof.
+    induction l as [|x r IH]; intros a i H; cbn [index_of] in H; [discriminate|].
+    destruct (eqb a x); [inversion H; lia|].
+    destruct (index_of eqb a r) as [j|] eqn:E; [|discriminate].
+    cbn [option_map] in H. inversion H. specialize (IH a j E). lia.
+  Qed.
+  Lemma index_of_inj : forall l a b i,
+    index_of eqb a l = Some i -> index_of eqb b l = Some i -> a = b.
+  Proof.
+    induction l as [|x r IH]; intros a b i Ha Hb; cbn [index_of] in *; [discriminate|].
+    destruct (eqb a x) eqn:Ea, (eqb b x) eqn:Eb.
+    - apply eqb_eq in Ea, Eb. congruence.
+    - inversion Ha; subst. destruct (index_of eqb b r) as [j|] eqn:E; [|discriminate].
+      cbn [option_map] in Hb. inversion Hb. pose proof (index_of_nonneg r b j E). lia.
+    - inversion Hb; subst. destruct (index_of eqb a r) as [j|] eqn:E; [|discriminate].
+      cbn [option_map] in Ha. inversion Ha. pose proof (index_of_nonneg r a j E). lia.
+    - destruct (index_of eqb a r) as [j|] eqn:E1; [|discriminate].
+      destruct (index_of eqb b r) as [j'|] eqn:E2; [|discriminate].
+      cbn [option_map] in *. inversion Ha. inversion Hb. apply (IH a b j); [exact E1|].
+      rewrite E2. f_equal. lia.
+  Qed.
+  Lemma index_of_in : forall l a, In a l -> exists i, index_of eqb a l = Some i.
+  Proof.
+    induction l as [|x r IH]; intros a Hin; [contradiction|]. cbn [index_of].
+    destruct (eqb a x) eqn:E; [exists 0; reflexivity|].
+    destruct Hin as [->|Hin]; [assert (eqb a a = true) by (apply eqb_eq; reflexivity); congruence|].
+    destruct (IH a Hin) as [i Hi]. rewrite Hi. exists (Z.succ i). reflexivity.
+  Qed.
+
+  Definition idx (l : list A) (a : A) : Z := match index_of eqb a l with Some i => i | None => 0 end.
+
+  Lemma zrange_S : forall n, zrange (Z.of_nat (S n)) = 0 :: map Z.succ (zrange (Z.of_nat n)).
+  Proof.
+    intros n. unfold zrange. rewrite !Nat2Z.id. cbn [seq map]. f_equal.
+    rewrite <- seq_shift, !map_map. apply map_ext. intros a. lia.
+  Qed.
+  Lemma combine_map_l : forall {X Y Z'} (f : X -> Y) (l : list X) (l' : list Z'),
+    combine (map f l) l' = map (fun p => (f (fst p), snd p)) (combine l l').
+  Proof.
+    induction l as [|x l IH]; intros l'; [reflexivity|]. destruct l' as [|y l']; [reflexivity|].
+    cbn [map combine fst snd]. rewrite IH. reflexivity.
+  Qed.
+  Lemma combine_zrange_idx : forall l, NoDup l ->
+    combine (zrange (Z.of_nat (length l))) l = map (fun a => (idx l a, a)) l.
+  Proof.
+    induction l as [|x r IH]; intros Hn; [reflexivity|].
+    inversion Hn as [|? ? Hx Hr]; subst. cbn [length]. rewrite zrange_S. cbn [combine map].
+    f_equal.
+    - unfold idx. cbn [index_of]. assert (E : eqb x x = true) by (apply eqb_eq; reflexivity).
+      rewrite E. reflexivity.
+    - rewrite combine_map_l, (IH Hr), map_map. apply map_ext_in. intros a Ha. cbn [fst snd].
+      f_equal. unfold idx. cbn [index_of].
+      destruct (eqb a x) eqn:E; [apply eqb_eq in E; subst; contradiction|].
+      destruct (index_of_in r a Ha) as [i Hi]. rewrite Hi. reflexivity.
+  Qed.
+  Lemma idx_index_of : forall l a, In a l -> index_of eqb a l = Some (idx l a).
+  Proof. intros l a H. unfold idx. destruct (index_of_in l a H) as [i Hi]. rewrite Hi. reflexivity. Qed.
+  Lemma idx_inj : forall l a b, In a l -> In b l -> idx l a = idx l b -> a = b.
+  Proof.
+    intros l a b Ha Hb E. apply (index_of_inj l a b (idx l a)); [apply idx_index_of; exact Ha|].
+    rewrite E. apply idx_index_of. exact Hb.
+  Qed.
+
+  Lemma dedup_in : forall l a, In a l -> In a (dedup eqb l).
+  Proof.
+    induction l as [|x r IH]; intros a Hin; [contradiction|]. cbn [dedup].
+    destruct (eqb a x) eqn:E; [apply eqb_eq in E; subst; left; reflexivity|].
+    destruct Hin as [->|Hin]; [left; reflexivity|]. right. apply filter_In. split; [apply IH; exact Hin|].
+    rewrite E. reflexivity.
+  Qed.
+  Lemma dedup_NoDup : forall l, NoDup (dedup eqb l).
+  Proof.
+    induction l as [|x r IH]; [constructor|]. cbn [dedup]. constructor; [|apply NoDup_filter; exact IH].
+    intros Hin. apply filter_In in Hin. destruct Hin as [_ H].
+    assert (E : eqb x x = true) by (apply eqb_eq; reflexivity). rewrite E in H. discriminate.
+  Qed.
+End IndexOf.
+
+Lemma zrange_In : forall n i, In i (zrange n) <-> 0 <= i < n.
+Proof.
+  intros n i. unfold zrange. rewrite in_map_iff. split.
+  - intros [x [E Hx]]. apply in_seq in Hx. lia.
+  - intros H. exists (Z.to_nat i). split; [lia|]. apply in_seq. lia.
+Qed.
+Lemma zrange_NoDup : forall n, NoDup (zrange n).
+Proof.
+  intros n. unfold zrange. generalize (seq_NoDup (Z.to_nat n) 0). generalize (seq 0 (Z.to_nat n)).
+  induction 1 as [|a l Ha Hn IH]; [constructor|]. cbn [map]. constructor; [|exact IH].
+  intros Hin. apply in_map_iff in Hin. destruct Hin as [b [E Hb]].
+  apply Nat2Z.inj in E. subst. contradiction.
+Qed.
+
+Lemma list_max_ge_d : forall l d, d <= list_max d l.
+Proof.
+  unfold list_max. induction l as [|a l IH]; intros d; cbn [fold_left]; [lia|].
+  specialize (IH (Z.max d a)). lia.
+Qed.
+Lemma list_max_ge_in : forall l d x, In x l -> x <= list_max d l.
+Proof.
+  unfold list_max. induction l as [|a l IH]; intros d x Hin; [contradiction|].
+  cbn [fold_left]. destruct Hin as [->|Hin].
+  - pose proof (list_max_ge_d l (Z.max d x)) as H. unfold list_max in H. lia.
+  - apply IH. exact Hin.
+Qed.
+Lemma list_max_in : forall l d, list_max d l = d \/ In (list_max d l) l.
+Proof.
+  unfold list_max. induction l as [|a l IH]; intros d; cbn [fold_left]; [left; reflexivity|].
+  destruct (IH (Z.max d a)) as [H|H].
+  - rewrite H. destruct (Z.max_spec d a) as [[_ E]|[_ E]]; rewrite E; [right; left; reflexivity|left; reflexivity].
+  - right. right. exact H.
+Qed.
+
+(* month_start is strictly increasing on 0..1571 *)
+Lemma cal_fact_mono_all :
+  forallb (fun i => month_start i <? month_start (i + 1)) month_ids = true.
+Proof. vm_compute. reflexivity. Qed.
+Lemma month_start_lt : forall a b, 0 <= a -> a < b -> b <= 1572 -> month_start a < month_start b.
+Proof.
+  intros a b Ha Hab Hb.
+  assert (H : forall n : nat, a + 1 + Z.of_nat n <= 1572 -> month_start a < month_start (a + 1 + Z.of_nat n)).
+  { induction n as [|n IH]; intros Hn.
+    - pose proof (month_ids_lift _ cal_fact_mono_all a ltac:(lia)) as H. cbv beta in H.
+      replace (a + 1 + Z.of_nat 0) with (a + 1) by lia. lia.
+    - pose proof (month_ids_lift _ cal_fact_mono_all (a + 1 + Z.of_nat n) ltac:(lia)) as H. cbv beta in H.
+      replace (a + 1 + Z.of_nat (S n)) with (a + 1 + Z.of_nat n + 1) by lia.
+      specialize (IH ltac:(lia)). lia. }
+  specialize (H (Z.to_nat (b - a - 1)) ltac:(lia)).
+  replace (a + 1 + Z.of_nat (Z.to_nat (b - a - 1))) with b in H by lia. exact H.
+Qed.
+Lemma month_start_inj : forall a b, 0 <= a <= 1571 -> 0 <= b <= 1571 -> month_start a = month_start b -> a = b.
+Proof. intros a b Ha Hb E. rewrite <- (month_id_start a Ha), <- (month_id_start b Hb), E. reflexivity. Qed.
+Lemma month_end_inj : forall a b, 0 <= a <= 1571 -> 0 <= b <= 1571 -> month_end a = month_end b -> a = b.
+Proof. intros a b Ha Hb E. rewrite <- (month_id_end a Ha), <- (month_id_end b Hb), E. reflexivity. Qed.
+
+(* ====================================================================================== *)
+(** * 5c. What triangle_to_matrix writes and what a look-up returns *)
+
+Definition key3_eqb (a b : Z * Z * Z) : bool :=
+  let '(a1, a2, a3) := a in let '(b1, b2, b3) := b in (a1 =? b1) && (a2 =? b2) && (a3 =? b3).
+Lemma key3_eqb_eq a b : key3_eqb a b = true <-> a = b.
+Proof.
+  destruct a as [[a1 a2] a3], b as [[b1 b2] b3]. unfold key3_eqb. rewrite !andb_true_iff, !Z.eqb_eq.
+  split; [intros [[-> ->] ->]; reflexivity | inversion 1; auto].
+Qed.
+Lemma mkey_eqb_eq a b : mkey_eqb a b = true <-> a = b.
+Proof.
+  destruct a as [[[a1 a2] a3] a4], b as [[[b1 b2] b3] b4]. unfold mkey_eqb.
+  rewrite !andb_true_iff, !Z.eqb_eq.
+  split; [intros [[[-> ->] ->] ->]; reflexivity | inversion 1; auto].
+Qed.
+
+Lemma mlookup_app k a b :
+  mlookup k (a ++ b) = match mlookup k a with Some v => Some v | None => mlookup k b end.
+Proof.
+  induction a as [|[k' v] a IH]; [reflexivity|]. cbn [app mlookup].
+  destruct (mkey_eqb k k'); [reflexivity|exact IH].
+Qed.
+Lemma mlookup_none k d : (forall e, In e d -> fst e <> k) -> mlookup k d = None.
+Proof.
+  induction d as [|[k' v] d IH]; intros H; [reflexivity|]. cbn [mlookup].
+  destruct (mkey_eqb k k') eqn:E.
+  - apply mkey_eqb_eq in E. exfalso. apply (H (k', v)); [left; reflexivity|cbn [fst]; congruence].
+  - apply IH. intros; apply H; right; assumption.
+Qed.
+Lemma mlookup_in_nodup k v d : NoDup (map fst d) -> In (k, v) d -> mlookup k d = Some v.
+Proof.
+  induction d as [|[k' v'] d IH]; intros Hn Hin; [contradiction|].
+  cbn [map fst] in Hn. inversion Hn as [|? ? Hk' Hd]; subst. cbn [mlookup].
+  destruct Hin as [E|Hin].
+  - inversion E; subst. rewrite (proj2 (mkey_eqb_eq k k) eq_refl). reflexivity.
+  - destruct (mkey_eqb k k') eqn:E.
+    + apply mkey_eqb_eq in E; subst. exfalso. apply Hk'. apply (in_map fst) in Hin. exact Hin.
+    + apply IH; assumption.
+Qed.
+
+Section Written.
+  Variables (msp : matrix_spec) (ix : mindex) (k : stepkind).
+  Hypothesis Hk : ms_resolve_step msp = k.
+
+  Definition si_of (c : cell) : Z := idx meta_seqb (ix_slices ix) (cmeta c).
+  Definition p_of (c : cell) : Z := match resolve_exp ix (ps c) with Ok p => p | Err _ => 0 end.
+  Definition d_of (c : cell) : Z := match resolve_dev k ix (cell_lag c) with Ok d => d | Err _ => 0 end.
+  Definition vnum (v : value) : Z := match v with VNum x => num_n x | _ => 0 end.
+  Definition ckey (c : cell) : Z * Z * Z := (si_of c, p_of c, d_of c).
+  Definition entry (c : cell) (fv : str * value) : mkey * Z :=
+    ((si_of c, idx str_eqb (ix_fields ix) (fst fv), p_of c, d_of c), vnum (snd fv)).
+  Definition cell_entries (c : cell) : list (mkey * Z) := rev (map (entry c) (cvals c)).
+  Definition writable (c : cell) : Prop :=
+    In (cmeta c) (ix_slices ix) /\ (exists p, resolve_exp ix (ps c) = Ok p) /\
+    (exists d, resolve_dev k ix (cell_lag c) = Ok d) /\
+    Forall (fun fv => In (fst fv) (ix_fields ix) /\ exists x, snd fv = VNum x) (cvals c).
+
+  Lemma write_cell_ok : forall c d0, writable c ->
+    write_cell msp ix (Ok d0) c = Ok (cell_entries c ++ d0).
+  Proof.
+    intros c d0 (Hm & [p Hp] & [d Hd] & HF). unfold write_cell, cell_entries.
+    rewrite (idx_index_of meta_seqb mx_meta_seqb_eq _ _ Hm), Hp, Hk, Hd. cbn [bind].
+    assert (Ee : forall fv x, snd fv = VNum x ->
+              entry c fv = ((idx meta_seqb (ix_slices ix) (cmeta c), idx str_eqb (ix_fields ix) (fst fv), p, d),
+                            num_n x)).
+    { intros fv x Hx. unfold entry, si_of, p_of, d_of, vnum. rewrite Hp, Hd, Hx. reflexivity. }
+    set (l := cvals c) in *. clearbody l. revert d0.
+    induction HF as [|fv l [Hf [x Hx]] HF IH]; intros d0; [reflexivity|].
+    cbn [fold_left map rev bind].
+    rewrite (idx_index_of str_eqb mx_str_eqb_eq _ _ Hf), Hx.
+    rewrite IH, (Ee fv x Hx), <- app_assoc. reflexivity.
+  Qed.
+
+  Lemma fold_write_ok : forall t, (forall c, In c t -> writable c) -> forall d0,
+    fold_left (write_cell msp ix) t (Ok d0) = Ok (flat_map cell_entries (rev t) ++ d0).
+  Proof.
+    induction t as [|c t IH]; intros H d0; [reflexivity|]. cbn [fold_left rev].
+    rewrite write_cell_ok by (apply H; left; reflexivity).
+    rewrite IH by (intros; apply H; right; assumption).
+    rewrite flat_map_app. cbn [flat_map]. rewrite app_nil_r, <- app_assoc. reflexivity.
+  Qed.
+
+  Lemma entries_key : forall c e, In e (cell_entries c) -> exists fv, In fv (cvals c) /\ e = entry c fv.
+  Proof.
+    unfold cell_entries. intros c e H. apply in_rev in H. apply in_map_iff in H.
+    destruct H as [fv [E H]]. exists fv; auto.
+  Qed.
+  Lemma mlookup_entries_other : forall c si fi j kk, ckey c <> (si, j, kk) ->
+    mlookup (si, fi, j, kk) (cell_entries c) = None.
+  Proof.
+    intros c si fi j kk H. apply mlookup_none. intros e He.
+    destruct (entries_key c e He) as [fv [_ ->]]. unfold entry; cbn [fst]. intros E. apply H.
+    unfold ckey. congruence.
+  Qed.
+  Lemma mlookup_flat_none : forall l si fi j kk, (forall c, In c l -> ckey c <> (si, j, kk)) ->
+    mlookup (si, fi, j, kk) (flat_map cell_entries l) = None.
+  Proof.
+    induction l as [|a l IH]; intros si fi j kk H; [reflexivity|]. cbn [flat_map].
+    rewrite mlookup_app, mlookup_entries_other by (apply H; left; reflexivity).
+    apply IH. intros; apply H; right; assumption.
+  Qed.
+  Lemma mlookup_flat_unique : forall l c fi,
+    (forall c', In c' l -> ckey c' = ckey c -> c' = c) ->
+    (mlookup (si_of c, fi, p_of c, d_of c) (cell_entries c) = None ->
+     mlookup (si_of c, fi, p_of c, d_of c) (flat_map cell_entries l) = None) /\
+    (In c l -> mlookup (si_of c, fi, p_of c, d_of c) (flat_map cell_entries l)
+               = mlookup (si_of c, fi, p_of c, d_of c) (cell_entries c)).
+  Proof.
+    induction l as [|a l IH]; intros c fi H; [split; [reflexivity|contradiction]|].
+    destruct (IH c fi ltac:(intros; apply H; [right; assumption|assumption])) as [IHa IHb].
+    cbn [flat_map]. rewrite mlookup_app.
+    destruct (key3_eqb (ckey a) (ckey c)) eqn:E.
+    - apply key3_eqb_eq in E. assert (a = c) by (apply H; [left; reflexivity|exact E]). subst a.
+      split.
+      + intros Hn. rewrite Hn. apply IHa; exact Hn.
+      + intros _. destruct (mlookup (si_of c, fi, p_of c, d_of c) (cell_entries c)) eqn:Em; [reflexivity|].
+        apply IHa. reflexivity.
+    - assert (Hne : ckey a <> (si_of c, p_of c, d_of c)).
+      { intros X. change (si_of c, p_of c, d_of c) with (ckey c) in X. rewrite X in E.
+        rewrite (proj2 (key3_eqb_eq (ckey c) (ckey c)) eq_refl) in E. discriminate. }
+      rewrite (mlookup_entries_other a _ fi _ _ Hne). split; [exact IHa|].
+      intros [->|Hin]; [exfalso; apply Hne; reflexivity|apply IHb; exact Hin].
+  Qed.
+End Written.
+
+(* ====================================================================================== *)
+(** * 5d. One matrix entry turns back into the cell that was written there *)
+
+Lemma NoDup_map_inj_in {A B} (g : A -> B) l :
+  (forall a b, In a l -> In b l -> g a = g b -> a = b) -> NoDup l -> NoDup (map g l).
+Proof.
+  intros Hinj Hn. induction Hn as [|a l Ha Hn IH]; [constructor|]. cbn [map]. constructor.
+  - intros Hin. apply in_map_iff in Hin. destruct Hin as [b [E Hb]].
+    assert (b = a) by (apply Hinj; [right; exact Hb|left; reflexivity|exact E]). subst. contradiction.
+  - apply IH. intros x y Hx Hy. apply Hinj; right; assumption.
+Qed.
+Lemma filter_nil_false {A} (f : A -> bool) l : filter f l = [] -> forall x, In x l -> f x = false.
+Proof.
+  intros E x Hx. destruct (f x) eqn:Ef; [|reflexivity].
+  assert (H : In x (filter f l)) by (apply filter_In; auto). rewrite E in H. contradiction.
+Qed.
+Lemma map_flat_map' {A B C} (f : B -> C) (F : A -> list B) l :
+  flat_map (fun g => map f (F g)) l = map f (flat_map F l).
+Proof. induction l as [|a l IH]; [reflexivity|]. cbn [flat_map]. rewrite map_app, IH. reflexivity. Qed.
+Lemma flat_map_prod3 {A B C D} (h : A -> B -> C -> list D) la lb lc :
+  flat_map (fun a => flat_map (fun b => flat_map (fun c => h a b c) lc) lb) la
+  = flat_map (fun g => h (fst g) (fst (snd g)) (snd (snd g))) (list_prod la (list_prod lb lc)).
+Proof.
+  transitivity (flat_map (fun a => flat_map (fun bc => h a (fst bc) (snd bc)) (list_prod lb lc)) la).
+  - apply flat_map_ext. intros a. apply (flat_map_prod (h a)).
+  - apply (flat_map_prod (fun a bc => h a (fst bc) (snd bc))).
+Qed.
+
+(** a cell on the grid of the index [ix], cumulative, with exactly the fields of the index as
+    scalar numbers, and metadata that is already float-normalised *)
+Definition cell_ok (k : stepkind) (ix : mindex) (c : cell) : Prop :=
+  exists s lag,
+    ps c = month_start s /\ pe c = month_end (s + exp_res ix - 1) /\
+    ev c = month_end (s + exp_res ix - 1 + lag) /\
+    0 <= s /\ 0 <= s + exp_res ix - 1 + lag <= 1571 /\ s + exp_res ix - 1 <= 1571 /\
+    exp_origin ix <= s /\ (exp_res ix | s - exp_origin ix) /\
+    dev_origin ix <= lag /\ (step_of k ix | lag - dev_origin ix) /\
+    ckind c = KCum /\ prev c = None /\
+    map fst (cvals c) = ix_fields ix /\ Forall (fun fv => exists x, snd fv = VNum x) (cvals c) /\
+    fl_meta (cmeta c) = cmeta c /\ In (cmeta c) (ix_slices ix).
+
+Section MatrixCell.
+  Variables (msp : matrix_spec) (ix : mindex) (k : stepkind).
+  Hypothesis Hk : ms_resolve_step msp = k.
+  Hypothesis Hres : 0 < exp_res ix.
+  Hypothesis Hstep : 0 < step_of k ix.
+  Hypothesis Hfields : NoDup (ix_fields ix).
+  Hypothesis Hfields_ne : ix_fields ix <> [].
+  Hypothesis Hslices : NoDup (ix_slices ix).
+
+  Notation si_of' := (si_of ix).
+  Notation p_of' := (p_of ix).
+  Notation d_of' := (d_of ix k).
+  Notation ckey' := (ckey ix k).
+  Notation cell_entries' := (cell_entries ix k).
+
+  Lemma cell_ok_keys : forall c, cell_ok k ix c ->
+    exists s lag,
+      ps c = month_start s /\ pe c = month_end (s + exp_res ix - 1) /\
+      ev c = month_end (s + exp_res ix - 1 + lag) /\
+      0 <= s /\ 0 <= s + exp_res ix - 1 + lag <= 1571 /\ s + exp_res ix - 1 <= 1571 /\
+      cell_lag c = lag /\
+      resolve_exp ix (ps c) = Ok (p_of' c) /\ resolve_dev k ix (cell_lag c) = Ok (d_of' c) /\
+      0 <= p_of' c /\ 0 <= d_of' c /\
+      s = exp_origin ix + p_of' c * exp_res ix /\ lag = dev_origin ix + d_of' c * step_of k ix.
+  Proof.
+    intros c (s & lag & Hps & Hpe & Hev & Hs & Hr1 & Hr2 & Ho & De & Hl & Dl & _).
+    assert (Hlag : cell_lag c = lag).
+    { unfold cell_lag. rewrite Hpe, Hev, lag_months_ends by lia. lia. }
+    destruct (unresolve_resolve_exp ix s Hres Ho ltac:(lia) De) as [p [Ep [Hp Up]]].
+    destruct (unresolve_resolve_dev k ix lag Hstep Hl Dl) as [d [Ed [Hd Ud]]].
+    unfold unresolve_dev in Ud.
+    exists s, lag. unfold p_of, d_of. rewrite Hlag, Hps, Ep, Ed.
+    repeat split; try assumption; try lia.
+  Qed.
+
+  Lemma cell_ok_writable : forall c, cell_ok k ix c -> writable ix k c.
+  Proof.
+    intros c Hc. destruct (cell_ok_keys c Hc) as (s & lag & _ & _ & _ & _ & _ & _ & _ & Ep & Ed & _).
+    destruct Hc as (_ & _ & _ & _ & _ & _ & _ & _ & _ & _ & _ & _ & _ & _ & Hf & Hv & _ & Hm).
+    split; [exact Hm|]. split; [eexists; exact Ep|]. split; [eexists; exact Ed|].
+    rewrite Forall_forall in *. intros fv Hfv. split; [|apply Hv; exact Hfv].
+    rewrite <- Hf. apply in_map. exact Hfv.
+  Qed.
+
+  Lemma ckey_coords : forall c c', cell_ok k ix c -> cell_ok k ix c' -> ckey' c = ckey' c' ->
+    cmeta c = cmeta c' /\ ps c = ps c' /\ ev c = ev c'.
+  Proof.
+    intros c c' Hc Hc' E.
+    destruct (cell_ok_keys c Hc) as (s & lag & Hps & _ & Hev & _ & _ & _ & _ & _ & _ & _ & _ & Us & Ul).
+    destruct (cell_ok_keys c' Hc') as (s' & lag' & Hps' & _ & Hev' & _ & _ & _ & _ & _ & _ & _ & _ & Us' & Ul').
+    destruct Hc as (_ & _ & _ & _ & _ & _ & _ & _ & _ & _ & _ & _ & _ & _ & _ & _ & _ & Hm).
+    destruct Hc' as (_ & _ & _ & _ & _ & _ & _ & _ & _ & _ & _ & _ & _ & _ & _ & _ & _ & Hm').
+    unfold ckey in E. inversion E as [[E1 E2 E3]].
+    split; [apply (idx_inj meta_seqb mx_meta_seqb_eq (ix_slices ix)); assumption|].
+    rewrite Hps, Hps', Hev, Hev', Us, Us', Ul, Ul', E2, E3. split; reflexivity.
+  Qed.
+
+  Variable t : list cell.
+  Hypothesis Hok : forall c, In c t -> cell_ok k ix c.
+  Hypothesis Huniq : forall c c', In c t -> In c' t ->
+    cmeta c = cmeta c' -> ps c = ps c' -> ev c = ev c' -> c = c'.
+
+  Lemma ckey_unique : forall c c', In c t -> In c' t -> ckey' c' = ckey' c -> c' = c.
+  Proof.
+    intros c c' Hc Hc' E. destruct (ckey_coords c' c (Hok c' Hc') (Hok c Hc) E) as (E1 & E2 & E3).
+    apply Huniq; assumption.
+  Qed.
+
+  Lemma entries_NoDup : forall c, cell_ok k ix c -> NoDup (map fst (cell_entries' c)).
+  Proof.
+    intros c Hc. destruct Hc as (_ & _ & _ & _ & _ & _ & _ & _ & _ & _ & _ & _ & _ & _ & Hf & _).
+    unfold cell_entries. rewrite map_rev. apply NoDup_rev. rewrite map_map.
+    unfold entry. cbn [fst].
+    rewrite <- (map_map fst (fun f => (si_of' c, idx str_eqb (ix_fields ix) f, p_of' c, d_of' c))).
+    rewrite Hf. apply NoDup_map_inj_in; [|exact Hfields].
+    intros a b Ha Hb E. inversion E. apply (idx_inj str_eqb mx_str_eqb_eq (ix_fields ix)); assumption.
+  Qed.
+
+  Let data := flat_map cell_entries' (rev t).
+
+  Lemma lookup_written : forall c fv, In c t -> In fv (cvals c) ->
+    mlookup (si_of' c, idx str_eqb (ix_fields ix) (fst fv), p_of' c, d_of' c) data = Some (vnum (snd fv)).
+  Proof.
+    intros c fv Hc Hfv. unfold data.
+    destruct (mlookup_flat_unique ix k (rev t) c (idx str_eqb (ix_fields ix) (fst fv))) as [_ Hb].
+    { intros c' Hc' E. apply ckey_unique; [exact Hc|apply in_rev; exact Hc'|exact E]. }
+    rewrite Hb by (apply in_rev; rewrite rev_involutive; exact Hc).
+    apply mlookup_in_nodup; [apply entries_NoDup; apply Hok; exact Hc|].
+    unfold cell_entries. apply in_rev. rewrite rev_involutive.
+    apply (in_map (entry ix k c)) in Hfv. exact Hfv.
+  Qed.
+
+  Lemma vals_of_cell : forall c, In c t ->
+    flat_map (fun fi_f : Z * str =>
+                match mlookup (si_of' c, fst fi_f, p_of' c, d_of' c) data with
+                | Some x => [(snd fi_f, VNum (Num true x))]
+                | None => []
+                end)
+             (combine (zrange (Z.of_nat (List.length (ix_fields ix)))) (ix_fields ix))
+    = map (fun kv => (fst kv, fl_value (snd kv))) (cvals c).
+  Proof.
+    intros c Hc.
+    rewrite (combine_zrange_idx str_eqb mx_str_eqb_eq _ Hfields), flat_map_map'. cbn [fst snd].
+    pose proof (Hok c Hc) as (_ & _ & _ & _ & _ & _ & _ & _ & _ & _ & _ & _ & _ & _ & Hf & Hv & _).
+    assert (G : forall l, (forall fv, In fv l -> In fv (cvals c)) ->
+              flat_map (fun f : str =>
+                          match mlookup (si_of' c, idx str_eqb (ix_fields ix) f, p_of' c, d_of' c) data with
+                          | Some x => [(f, VNum (Num true x))]
+                          | None => []
+                          end) (map fst l)
+              = map (fun kv => (fst kv, fl_value (snd kv))) l).
+    { induction l as [|fv l IH]; intros Hl; [reflexivity|]. cbn [map flat_map].
+      rewrite (lookup_written c fv Hc (Hl fv (or_introl eq_refl))).
+      rewrite IH by (intros; apply Hl; right; assumption).
+      rewrite Forall_forall in Hv. destruct (Hv fv (Hl fv (or_introl eq_refl))) as [x Hx].
+      rewrite Hx. reflexivity. }
+    rewrite <- (G (cvals c)) by auto. rewrite Hf. reflexivity.
+  Qed.
+
+  Variables np nd : Z.
+  Let mat := mkMat ix false np nd data.
+
+  Lemma matrix_cell_hit : forall c, In c t ->
+    matrix_cell k mat (si_of' c) (cmeta c) (p_of' c) (d_of' c) = [fl_cell c].
+  Proof.
+    intros c Hc. unfold matrix_cell, mat. cbn [m_index m_data m_incremental].
+    rewrite (vals_of_cell c Hc).
+    destruct (cell_ok_keys c (Hok c Hc))
+      as (s & lag & Hps & Hpe & Hev & Hs & Hr1 & Hr2 & _ & _ & _ & _ & _ & Us & Ul).
+    pose proof (Hok c Hc) as (_ & _ & _ & _ & _ & _ & _ & _ & _ & _ & _ & _ & Hkd & Hpv & Hf & _ & Hfm & _).
+    destruct (cvals c) as [|fv0 l0] eqn:Ecv.
+    { exfalso. apply Hfields_ne. rewrite <- Hf. reflexivity. }
+    cbn [map]. unfold fl_cell. rewrite Ecv, Hkd, Hpv, Hfm, Hps, Hpe, Hev. cbn [map].
+    unfold unresolve_exp_start, unresolve_exp_end, unresolve_dev. rewrite <- Ul, <- Us.
+    replace (exp_origin ix + (p_of' c + 1) * exp_res ix - 1) with (s + exp_res ix - 1) by lia.
+    rewrite addm_month_end by lia. reflexivity.
+  Qed.
+
+  Lemma matrix_cell_miss : forall si m j kk, (forall c, In c t -> ckey' c <> (si, j, kk)) ->
+    matrix_cell k mat si m j kk = [].
+  Proof.
+    intros si m j kk H. unfold matrix_cell, mat. cbn [m_index m_data m_incremental].
+    rewrite flat_map_nil'; [reflexivity|]. intros [fi f] _. cbn [fst snd]. unfold data.
+    rewrite mlookup_flat_none; [reflexivity|]. intros c Hc. apply H. apply in_rev. exact Hc.
+  Qed.
+
+  Hypothesis Hnodup : NoDup t.
+
+  (* the entry (m, j, kk) of the matrix turns back into exactly the cells of t with that key *)
+  Lemma matrix_cell_bucket : forall m j kk, In m (ix_slices ix) ->
+    matrix_cell k mat (idx meta_seqb (ix_slices ix) m) m j kk
+    = map fl_cell (filter (fun c => key3_eqb (ckey' c) (idx meta_seqb (ix_slices ix) m, j, kk)) t).
+  Proof.
+    intros m j kk Hm.
+    destruct (filter (fun c => key3_eqb (ckey' c) (idx meta_seqb (ix_slices ix) m, j, kk)) t)
+      as [|c rest] eqn:F.
+    - cbn [map]. apply matrix_cell_miss. intros c Hc E.
+      pose proof (filter_nil_false _ _ F c Hc) as Hf. cbv beta in Hf.
+      rewrite E, (proj2 (key3_eqb_eq _ _) eq_refl) in Hf. discriminate.
+    - assert (Hin : In c (c :: rest)) by (left; reflexivity). rewrite <- F in Hin.
+      apply filter_In in Hin. destruct Hin as [Hc Ek]. apply key3_eqb_eq in Ek.
+      assert (Hrest : rest = []).
+      { destruct rest as [|r rest']; [reflexivity|]. exfalso.
+        assert (Hr : In r (c :: r :: rest')) by (right; left; reflexivity). rewrite <- F in Hr.
+        apply filter_In in Hr. destruct Hr as [Hr Er]. apply key3_eqb_eq in Er.
+        assert (r = c) by (apply ckey_unique; [exact Hc|exact Hr|congruence]). subst r.
+        pose proof (NoDup_filter (fun c => key3_eqb (ckey' c) (idx meta_seqb (ix_slices ix) m, j, kk)) Hnodup) as Hn.
+        rewrite F in Hn. inversion Hn as [|? ? Hx _]. apply Hx. left. reflexivity. }
+      subst rest. cbn [map]. unfold ckey in Ek. injection Ek as E1 E2 E3.
+      assert (Em : cmeta c = m).
+      { pose proof (Hok c Hc) as (_ & _ & _ & _ & _ & _ & _ & _ & _ & _ & _ & _ & _ & _ & _ & _ & _ & Hcm).
+        apply (idx_inj meta_seqb mx_meta_seqb_eq (ix_slices ix)); assumption. }
+      rewrite <- E2, <- E3, <- Em. exact (matrix_cell_hit c Hc).
+  Qed.
+End MatrixCell.
+
+(* ====================================================================================== *)
+(** * 5e. Triangle level: triangle -> Matrix -> triangle is a permutation of the float-normalised cells *)
+
+Lemma list_max_map_in {A} (f : A -> Z) (c0 : A) (l : list A) :
+  exists c1, In c1 (c0 :: l) /\ list_max (f c0) (map f (c0 :: l)) = f c1 /\
+             forall c, In c (c0 :: l) -> f c <= f c1.
+Proof.
+  assert (Hge : forall c, In c (c0 :: l) -> f c <= list_max (f c0) (map f (c0 :: l)))
+    by (intros c Hc; apply list_max_ge_in; apply in_map; exact Hc).
+  destruct (list_max_in (map f (c0 :: l)) (f c0)) as [E|Hin].
+  - exists c0. split; [left; reflexivity|]. split; [exact E|]. intros c Hc. rewrite <- E. apply Hge. exact Hc.
+  - apply in_map_iff in Hin. destruct Hin as [c1 [E Hc1]]. exists c1. split; [exact Hc1|].
+    split; [symmetry; exact E|]. intros c Hc. rewrite E. apply Hge. exact Hc.
+Qed.
+
+Lemma p_of_mono : forall ix k c c1, 0 < exp_res ix -> 0 < step_of k ix ->
+  cell_ok k ix c -> cell_ok k ix c1 -> ps c <= ps c1 -> p_of ix c <= p_of ix c1.
+Proof.
+  intros ix k c c1 Hres Hstep Hc Hc1 Hle.
+  destruct (cell_ok_keys ix k Hres Hstep c Hc) as (s & lag & Hps & _ & _ & Hs & _ & Hr & _ & _ & _ & _ & _ & Us & _).
+  destruct (cell_ok_keys ix k Hres Hstep c1 Hc1) as (s1 & lag1 & Hps1 & _ & _ & Hs1 & _ & Hr1 & _ & _ & _ & _ & _ & Us1 & _).
+  rewrite Hps, Hps1 in Hle.
+  assert (Hss : s <= s1).
+  { destruct (Z_le_gt_dec s s1) as [H|H]; [exact H|]. exfalso.
+    pose proof (month_start_lt s1 s ltac:(lia) ltac:(lia) ltac:(lia)). lia. }
+  nia.
+Qed.
+Lemma d_of_mono : forall ix k c c1, 0 < exp_res ix -> 0 < step_of k ix ->
+  cell_ok k ix c -> cell_ok k ix c1 -> cell_lag c <= cell_lag c1 -> d_of ix k c <= d_of ix k c1.
+Proof.
+  intros ix k c c1 Hres Hstep Hc Hc1 Hle.
+  destruct (cell_ok_keys ix k Hres Hstep c Hc) as (s & lag & _ & _ & _ & _ & _ & _ & Hl & _ & _ & _ & _ & _ & Ul).
+  destruct (cell_ok_keys ix k Hres Hstep c1 Hc1) as (s1 & lag1 & _ & _ & _ & _ & _ & _ & Hl1 & _ & _ & _ & _ & _ & Ul1).
+  rewrite Hl, Hl1 in Hle. nia.
+Qed.
+
+Theorem matrix_round_trip_perm : forall msp k t fields ix,
+  ms_resolve_step msp = k -> ms_inverse_step msp = k ->
+  forallb month_aligned_cell t = true -> semi_regular t = true ->
+  index_from_triangle t fields = Ok ix ->
+  0 < exp_res ix -> 0 < step_of k ix -> NoDup fields ->
+  (forall c, In c t -> cell_ok k ix c) ->
+  NoDup t ->
+  (forall c c', In c t -> In c' t -> cmeta c = cmeta c' -> ps c = ps c' -> ev c = ev c' -> c = c') ->
+  exists out, matrix_round_trip msp t fields = Ok out /\ Permutation out (floatify t).
+Proof.
+  intros msp k t fields ix Hk Hinv Hal Hsr Hix Hres Hstep Hfn Hok Hnd Huniq.
+  destruct (index_from_triangle_grid t fields ix Hix) as (Hsl & Hfl & _).
+  destruct (index_from_triangle_inv t fields ix Hix) as (c0 & t' & Et & Hfne & _).
+  assert (Hslices : NoDup (ix_slices ix)) by (rewrite Hsl; apply (dedup_NoDup meta_seqb mx_meta_seqb_eq)).
+  assert (Hfields : NoDup (ix_fields ix)) by (rewrite Hfl; exact Hfn).
+  assert (Hfields_ne : ix_fields ix <> []) by (rewrite Hfl; exact Hfne).
+  unfold matrix_round_trip, triangle_to_matrix. rewrite Hal, Hsr. cbn [negb]. rewrite Hix. cbn [bind].
+  rewrite Et. cbv beta iota zeta.
+  destruct (list_max_map_in ps c0 t') as (c1 & Hc1 & E1 & Hmax1).
+  destruct (list_max_map_in cell_lag c0 t') as (c2 & Hc2 & E2 & Hmax2).
+  change (list_max (ps c0) (map ps (c0 :: t')) = ps c1) in E1.
+  rewrite E1, E2. rewrite <- Et in Hc1, Hc2, Hmax1, Hmax2 |- *.
+  destruct (cell_ok_keys ix k Hres Hstep c1 (Hok c1 Hc1)) as (s1 & lag1 & _ & _ & _ & _ & _ & _ & _ & Ep1 & _ & Hp1 & _).
+  destruct (cell_ok_keys ix k Hres Hstep c2 (Hok c2 Hc2)) as (s2 & lag2 & _ & _ & _ & _ & _ & _ & _ & _ & Ed2 & _ & Hd2 & _).
+  rewrite Ep1, Hk, Ed2. cbn [bind].
+  rewrite (fold_write_ok msp ix k Hk t (fun c Hc => cell_ok_writable ix k Hres Hstep c (Hok c Hc))).
+  cbn [bind]. rewrite app_nil_r.
+  eexists. split; [reflexivity|].
+  unfold matrix_to_triangle. rewrite Hinv. unfold matrix_to_triangle_with. cbn [m_index m_np m_nd].
+  assert (Einc : tri_is_inc t = false).
+  { rewrite Et. unfold tri_is_inc, is_inc.
+    pose proof (Hok c0 ltac:(rewrite Et; left; reflexivity)) as (_ & _ & _ & _ & _ & _ & _ & _ & _ & _ & _ & _ & Hkd & _).
+    rewrite Hkd. reflexivity. }
+  rewrite Einc.
+  set (mat := mkMat ix false (p_of ix c1 + 1) (d_of ix k c2 + 1) (flat_map (cell_entries ix k) (rev t))).
+  rewrite (combine_zrange_idx meta_seqb mx_meta_seqb_eq _ Hslices), flat_map_map'. cbn [fst snd].
+  rewrite (flat_map_prod3 (fun m j kk => matrix_cell k mat (idx meta_seqb (ix_slices ix) m) m j kk)).
+  set (grid := list_prod (ix_slices ix) (list_prod (zrange (m_np mat)) (zrange (m_nd mat)))).
+  set (sel := fun (g : meta * (Z * Z)) (c : cell) =>
+                key3_eqb (ckey ix k c) (idx meta_seqb (ix_slices ix) (fst g), fst (snd g), snd (snd g))).
+  rewrite (flat_map_ext_in' _ (fun g => map fl_cell (filter (fun c => sel g c) t))).
+  2:{ intros [m [j kk]] Hg. cbn [fst snd]. apply in_prod_iff in Hg. destruct Hg as [Hm _].
+      apply (matrix_cell_bucket ix k Hres Hstep Hfields Hfields_ne t Hok Huniq); assumption. }
+  rewrite map_flat_map'. unfold floatify. apply Permutation_map. apply bucket_perm.
+  intros c Hc.
+  assert (Hgrid : NoDup grid).
+  { apply NoDup_list_prod'; [exact Hslices|]. apply NoDup_list_prod'; apply zrange_NoDup. }
+  pose proof (Hok c Hc) as Hcok.
+  destruct (cell_ok_keys ix k Hres Hstep c Hcok) as (s & lag & _ & _ & _ & _ & _ & _ & _ & _ & _ & Hp & Hd & _).
+  assert (Hcm : In (cmeta c) (ix_slices ix)).
+  { destruct Hcok as (_ & _ & _ & _ & _ & _ & _ & _ & _ & _ & _ & _ & _ & _ & _ & _ & _ & H). exact H. }
+  assert (Hin : In (cmeta c, (p_of ix c, d_of ix k c)) grid).
+  { apply in_prod_iff. split; [exact Hcm|]. apply in_prod_iff. unfold mat. cbn [m_np m_nd].
+    split; apply zrange_In.
+    - pose proof (p_of_mono ix k c c1 Hres Hstep Hcok (Hok c1 Hc1) (Hmax1 c Hc)). lia.
+    - pose proof (d_of_mono ix k c c2 Hres Hstep Hcok (Hok c2 Hc2) (Hmax2 c Hc)). lia. }
+  destruct (NoDup_split_at _ _ Hgrid Hin) as (g1 & g2 & Eg & Hn1 & Hn2).
+  exists g1, (cmeta c, (p_of ix c, d_of ix k c)), g2. split; [exact Eg|]. split.
+  - unfold sel. cbn [fst snd]. apply key3_eqb_eq. reflexivity.
+  - intros g' Hg'. destruct (sel g' c) eqn:Es; [|reflexivity]. exfalso.
+    unfold sel in Es. apply key3_eqb_eq in Es. unfold ckey in Es. injection Es as Es1 Es2 Es3.
+    assert (Hg'in : In g' grid) by (rewrite Eg; apply in_or_app; destruct Hg'; [left|right; right]; assumption).
+    destruct g' as [m' [j' kk']]. cbn [fst snd] in *.
+    apply in_prod_iff in Hg'in. destruct Hg'in as [Hm' _].
+    assert (cmeta c = m') by (apply (idx_inj meta_seqb mx_meta_seqb_eq (ix_slices ix)); assumption).
+    subst m' j' kk'. destruct Hg'; contradiction.
+Qed.
+
+(** The same theorem with the index side conditions discharged: resolve and inverse step both
+    min(dev_res, exp_res), nested resolutions, every period exactly exp_res months long. *)
+Definition grid_cell (L : Z) (fields : list str) (c : cell) : Prop :=
+  exists s e,
+    ps c = month_start s /\ pe c = month_end (s + L - 1) /\ ev c = month_end e /\
+    0 <= s /\ 0 < L /\ s + L - 1 <= 1571 /\ 0 <= e <= 1571 /\
+    ckind c = KCum /\ prev c = None /\
+    map fst (cvals c) = fields /\ Forall (fun fv => exists x, snd fv = VNum x) (cvals c) /\
+    fl_meta (cmeta c) = cmeta c.
+
+Lemma grid_cell_ok : forall t fields ix c,
+  index_from_triangle t fields = Ok ix ->
+  ((dev_res ix | exp_res ix) \/ (exp_res ix | dev_res ix)) ->
+  In c t -> grid_cell (exp_res ix) fields c -> cell_ok SMin ix c.
+Proof.
+  intros t fields ix c Hix Hn Hc (s & e & Hps & Hpe & Hev & Hs & HL & Hr & He & Hkd & Hpv & Hf & Hv & Hfm).
+  destruct (index_from_triangle_grid t fields ix Hix) as (Hsl & Hfl & Hdr & Hg & _).
+  destruct (Hg c Hc) as (Ho & De & _ & Hlo).
+  pose proof (index_from_triangle_lag_grid t fields ix Hix HL Hn c Hc) as Dl.
+  assert (Hlag : cell_lag c = e - (s + exp_res ix - 1)).
+  { unfold cell_lag. rewrite Hpe, Hev, lag_months_ends by lia. reflexivity. }
+  rewrite Hps, month_id_start in Ho, De by lia. rewrite Hlag in Hlo, Dl.
+  exists s, (e - (s + exp_res ix - 1)).
+  replace (s + exp_res ix - 1 + (e - (s + exp_res ix - 1))) with e by lia.
+  repeat split; try assumption; try lia.
+  - rewrite Hfl. exact Hf.
+  - rewrite Hsl. apply (dedup_in meta_seqb mx_meta_seqb_eq). apply in_map. exact Hc.
+Qed.
+
+Theorem matrix_round_trip_nested : forall msp t fields ix,
+  ms_resolve_step msp = SMin -> ms_inverse_step msp = SMin ->
+  semi_regular t = true ->
+  index_from_triangle t fields = Ok ix ->
+  ((dev_res ix | exp_res ix) \/ (exp_res ix | dev_res ix)) ->
+  NoDup fields ->
+  (forall c, In c t -> grid_cell (exp_res ix) fields c) ->
+  NoDup t ->
+  (forall c c', In c t -> In c' t -> cmeta c = cmeta c' -> ps c = ps c' -> ev c = ev c' -> c = c') ->
+  exists out, matrix_round_trip msp t fields = Ok out /\ Permutation out (floatify t).
+Proof.
+  intros msp t fields ix Hk Hinv Hsr Hix Hn Hfn Hgc Hnd Huniq.
+  destruct (index_from_triangle_grid t fields ix Hix) as (_ & _ & Hdr & _).
+  destruct (index_from_triangle_inv t fields ix Hix) as (c0 & t' & Et & _).
+  assert (Hres : 0 < exp_res ix).
+  { destruct (Hgc c0 ltac:(rewrite Et; left; reflexivity)) as (s & e & _ & _ & _ & _ & HL & _). exact HL. }
+  apply (matrix_round_trip_perm msp SMin t fields ix); try assumption.
+  - apply forallb_forall. intros c Hc.
+    destruct (Hgc c Hc) as (s & e & Hps & Hpe & Hev & Hs & HL & Hr & He & _).
+    unfold month_aligned_cell. rewrite Hps, Hpe, Hev.
+    rewrite month_start_is_start, !month_end_is_end by lia. reflexivity.
+  - unfold step_of. lia.
+  - intros c Hc. apply (grid_cell_ok t fields ix c Hix Hn Hc). apply Hgc. exact Hc.
+Qed.
+
+(* NOT PROVED (left open; the theorems above cover cumulative triangles whose cells all carry exactly
+   the requested fields as scalar numbers):
+   - incremental triangles (m_incremental = true: prev_evaluation_date rebuilt from the previous lag);
+   - cells holding one-element sample arrays (VArr _ [x] is written as x and comes back as VNum);
+   - cells that carry only a subset of `fields`, or extra fields (skipped by `if field in fields`);
+   - the to_array direction (grouping cells into period rows), i.e.
+       forall t f r m, array hypotheses -> exists af, to_array t f = Ok af /\
+                       Permutation (from_array af f r m) (floatify t);
+   - ms_rich_inverse_step (rich_matrix_to_triangle) is not modelled in Model/MatrixIx.v beyond the flag. *)
